@@ -1811,3 +1811,61 @@ func searchExits(sym *Sym, f *ssa.Function) []searchExit {
 	}
 	return out
 }
+
+// readsParam: v is parameter p, or a read of the cell p was spilled into
+// (parameters captured by a closure live in a cell) when nothing else is ever
+// stored into that cell by this function.
+func readsParam(v ssa.Value, p *ssa.Parameter) bool {
+	if v == ssa.Value(p) {
+		return true
+	}
+	ld, ok := v.(*ssa.UnOp)
+	if !ok || ld.Op != token.MUL {
+		return false
+	}
+	a, ok := ld.X.(*ssa.Alloc)
+	if !ok {
+		return false
+	}
+	n := 0
+	for _, ref := range *a.Referrers() {
+		if st, ok := ref.(*ssa.Store); ok && st.Addr == ssa.Value(a) {
+			if st.Val != ssa.Value(p) {
+				return false
+			}
+			n++
+		}
+	}
+	return n == 1
+}
+
+// pcEvalFree is pcEvalUnder for models that leave some atoms open: the result
+// is reported only when it is the same for every value of the open atoms.
+func pcEvalFree(f *pcF, val func(*pcAtom) (bool, bool)) (res bool, ok bool) {
+	env := map[string]bool{}
+	var free []*pcAtom
+	for _, a := range f.atoms() {
+		v, known := val(a)
+		if known {
+			env[a.key] = v
+		} else {
+			free = append(free, a)
+		}
+	}
+	if len(free) > 12 {
+		return false, false
+	}
+	first := true
+	for m := 0; m < 1<<len(free); m++ {
+		for i, a := range free {
+			env[a.key] = m&(1<<i) != 0
+		}
+		v := f.eval(env, map[*pcF]bool{})
+		if first {
+			res, first = v, false
+		} else if v != res {
+			return false, false
+		}
+	}
+	return res, true
+}
